@@ -10,6 +10,7 @@ def run(tier, seed, limit=0):
     if limit:
         scs = scs[:limit]
     chk.run_scenarios(scs, "Trace_VscRand", nontrivial=lambda r: any(e["op"] == "cmode" for e in r["events"]))
+    chk.run_mc("MC_VscRand", {"MaxLevel": 4 if tier == "quick" else 6}, workers=12, label="A-level API machine on world W-flags")
     return chk.finish(LEVEL, "class hierarchy A <- B <- C with overridden block names, holder objects with nested and list-element "
                       "instances, instances created after toggles; random toggle/call/construct histories with a pin-probe truth table "
                       "of some instance after every step and of every instance at the end; TLC compares each table with Sol over "
